@@ -308,6 +308,10 @@ impl<'tcx> M<'tcx> {
                 let mut l = vec![];
                 flatten(&v, &mut l);
                 if l.len() != vleaves(&want) {
+                    // modelled library objects (iterators) do not have the leaf structure of their type
+                    if l.iter().any(|x| matches!(x, V::SliceIter(..) | V::Obj(..))) {
+                        return Ok(v);
+                    }
                     return unsup(format!("reshape {} leaves into {}", l.len(), t));
                 }
                 return Ok(reshape(self.tcx, t, &mut l.into_iter()));
